@@ -92,7 +92,7 @@ def svcOnly (l : List Tick) : Prop := ∀ t ∈ l, ∃ tmo o u, t = Tick.s tmo o
   | w235j c t => rcases c with _ | ⟨f, w⟩; exact w235ja t; exact w235js f w t
   | w236 c t => rcases c with _ | ⟨f, w⟩; exact w236a t; exact w236s f w t
 
-theorem exec_append (v : Bool) (s : St) (l₁ l₂ : List Tick) : exec v s (l₁ ++ l₂) = exec v (exec v s l₁) l₂ := by
+theorem exec_append (v : Prog) (s : St) (l₁ l₂ : List Tick) : exec v s (l₁ ++ l₂) = exec v (exec v s l₁) l₂ := by
   induction l₁ generalizing s with
   | nil => rfl
   | cons t ts ih => simp [exec, ih]
@@ -100,30 +100,30 @@ theorem exec_append (v : Bool) (s : St) (l₁ l₂ : List Tick) : exec v s (l₁
 /-- One step under a stop request that is in force (HEAD program): the request stays in force, the caller does not enter
     `start()`, and the potential `calls of do() so far + calls the loop may still begin` does not grow. -/
 theorem Q_step (s s' : St) (t : Tick) (hQ : Q s) (hc : s.cal.inStart = false) (ht : t.isStartCall = false)
-    (h : step false s t = some s') :
+    (h : step .head s t = some s') :
     Q s' ∧ s'.cal.inStart = false ∧ nDo s' + s'.svc.mayDo ≤ nDo s + s.svc.mayDo := by
   revert s' h
   obtain ⟨svc, cal, stopping, shutdown, stopped, intr, thr, dos, nDone, nStart, nFinal, ret⟩ := s
   cases t with
   | c tmo =>
-    induction cal using CPc.casesFull <;> simp only [step, stepC] <;> (repeat' split) <;>
+    induction cal using CPc.casesFull <;> simp only [step, stepC, Prog.resets, Prog.readsTwice, Bool.false_eq_true, ↓reduceIte] <;> (repeat' split) <;>
       simp_all [Q, nDo, CPc.inStart, wakeReturn, waitReturn] <;> (repeat' split) <;> simp_all [Q, nDo, CPc.inStart, wakeReturn, waitReturn]
   | s tmo o u =>
-    cases svc <;> simp only [step, stepS] <;> (repeat' split) <;>
+    cases svc <;> simp only [step, stepS, Prog.resets, Prog.readsTwice, Bool.false_eq_true, ↓reduceIte] <;> (repeat' split) <;>
       simp_all [Q, nDo, SPc.exiting, SPc.mayDo]
   | call k =>
     cases k <;> simp only [step] <;> (repeat' split) <;> simp_all [Call.entry, Tick.isStartCall, Q, CPc.inStart, nDo]
 
 theorem Q_exec (s : St) (l : List Tick) (hQ : Q s) (hc : s.cal.inStart = false) (hl : noStartCall l) :
-    Q (exec false s l) ∧ (exec false s l).cal.inStart = false ∧
-      nDo (exec false s l) + (exec false s l).svc.mayDo ≤ nDo s + s.svc.mayDo := by
+    Q (exec .head s l) ∧ (exec .head s l).cal.inStart = false ∧
+      nDo (exec .head s l) + (exec .head s l).svc.mayDo ≤ nDo s + s.svc.mayDo := by
   induction l generalizing s with
   | nil => exact ⟨hQ, hc, Nat.le_refl _⟩
   | cons t ts ih =>
     have ht := hl t (List.mem_cons_self ..)
     have hts : noStartCall ts := fun x hx => hl x (List.mem_cons_of_mem _ hx)
     simp only [exec]
-    cases h : step false s t with
+    cases h : step .head s t with
     | none => simpa using ih s hQ hc hts
     | some s' =>
       obtain ⟨q, c, n⟩ := Q_step s s' t hQ hc ht h
@@ -132,28 +132,28 @@ theorem Q_exec (s : St) (l : List Tick) (hQ : Q s) (hc : s.cal.inStart = false) 
 
 /-- `T` is preserved by every step that is not a call of `start()` -/
 theorem T_step (s s' : St) (t : Tick) (hT : T s) (hc : s.cal.inStart = false) (ht : t.isStartCall = false)
-    (h : step false s t = some s') : T s' ∧ s'.cal.inStart = false := by
+    (h : step .head s t = some s') : T s' ∧ s'.cal.inStart = false := by
   revert s' h
   obtain ⟨svc, cal, stopping, shutdown, stopped, intr, thr, dos, nDone, nStart, nFinal, ret⟩ := s
   cases t with
   | c tmo =>
-    induction cal using CPc.casesFull <;> simp only [step, stepC] <;> (repeat' split) <;>
+    induction cal using CPc.casesFull <;> simp only [step, stepC, Prog.resets, Prog.readsTwice, Bool.false_eq_true, ↓reduceIte] <;> (repeat' split) <;>
       simp_all [T, Q, CPc.inStart, wakeReturn, waitReturn] <;> (repeat' split) <;> simp_all [T, Q, CPc.inStart, wakeReturn, waitReturn]
   | s tmo o u =>
-    cases svc <;> simp only [step, stepS] <;> (repeat' split) <;>
+    cases svc <;> simp only [step, stepS, Prog.resets, Prog.readsTwice, Bool.false_eq_true, ↓reduceIte] <;> (repeat' split) <;>
       simp_all [T, Q, SPc.exiting, SPc.sleepy]
   | call k =>
     cases k <;> simp only [step] <;> (repeat' split) <;> simp_all [Call.entry, Tick.isStartCall, T, Q, CPc.inStart]
 
 theorem T_exec (s : St) (l : List Tick) (hT : T s) (hc : s.cal.inStart = false) (hl : noStartCall l) :
-    T (exec false s l) ∧ (exec false s l).cal.inStart = false := by
+    T (exec .head s l) ∧ (exec .head s l).cal.inStart = false := by
   induction l generalizing s with
   | nil => exact ⟨hT, hc⟩
   | cons t ts ih =>
     have ht := hl t (List.mem_cons_self ..)
     have hts : noStartCall ts := fun x hx => hl x (List.mem_cons_of_mem _ hx)
     simp only [exec]
-    cases h : step false s t with
+    cases h : step .head s t with
     | none => simpa using ih s hT hc hts
     | some s' =>
       obtain ⟨q, c⟩ := T_step s s' t hT hc ht h
@@ -162,18 +162,18 @@ theorem T_exec (s : St) (l : List Tick) (hT : T s) (hc : s.cal.inStart = false) 
 /-- under `T` a live service thread is never blocked — whether or not its sleep times out — and every statement it executes
     brings it closer to its end -/
 theorem T_progress (s : St) (tmo : Bool) (o : Outcome) (u : Bool) (hT : T s) (ha : alive s = true) :
-    ∃ s', stepS false s tmo o u = some s' ∧ s'.svc.rank < s.svc.rank ∧ s'.cal = s.cal := by
+    ∃ s', stepS .head s tmo o u = some s' ∧ s'.svc.rank < s.svc.rank ∧ s'.cal = s.cal := by
   obtain ⟨svc, cal, stopping, shutdown, stopped, intr, thr, dos, nDone, nStart, nFinal, ret⟩ := s
-  cases svc <;> simp only [stepS] <;> (repeat' split) <;>
+  cases svc <;> simp only [stepS, Prog.resets, Prog.readsTwice, Bool.false_eq_true, ↓reduceIte] <;> (repeat' split) <;>
     simp_all [T, Q, SPc.exiting, SPc.sleepy, SPc.rank, alive, SPc.alive]
 
-theorem dead_stepS (s : St) (tmo : Bool) (o : Outcome) (u : Bool) (ha : alive s = false) : stepS false s tmo o u = none := by
+theorem dead_stepS (s : St) (tmo : Bool) (o : Outcome) (u : Bool) (ha : alive s = false) : stepS .head s tmo o u = none := by
   obtain ⟨svc, cal, stopping, shutdown, stopped, intr, thr, dos, nDone, nStart, nFinal, ret⟩ := s
   cases svc <;> simp_all [stepS, alive, SPc.alive]
 
 /-- the service thread, running alone, has ended after `rank` of its own statements -/
 theorem T_exits (s : St) (l : List Tick) (hT : T s) (hc : s.cal.inStart = false) (hl : svcOnly l)
-    (hn : s.svc.rank ≤ l.length) : alive (exec false s l) = false := by
+    (hn : s.svc.rank ≤ l.length) : alive (exec .head s l) = false := by
   induction l generalizing s with
   | nil =>
     obtain ⟨svc, cal, stopping, shutdown, stopped, intr, thr, dos, nDone, nStart, nFinal, ret⟩ := s
@@ -192,7 +192,7 @@ theorem T_exits (s : St) (l : List Tick) (hT : T s) (hc : s.cal.inStart = false)
     | true =>
       obtain ⟨s', h1, h2, h3⟩ := T_progress s tmo o u hT ha
       rw [h1]
-      have hstep : step false s (.s tmo o u) = some s' := h1
+      have hstep : step .head s (.s tmo o u) = some s' := h1
       obtain ⟨q, c⟩ := T_step s s' _ hT hc rfl hstep
       simp only [List.length_cons] at hn
       exact ih s' q c hts (by omega)
@@ -206,12 +206,12 @@ def svcCount (l : List Tick) : Nat := (l.filter Tick.isSvc).length
 
 /-- a step of the caller thread outside `start()` does not touch the service thread's program counter -/
 theorem caller_step_svc (s s' : St) (t : Tick) (hc : s.cal.inStart = false) (ht : t.isSvc = false)
-    (h : step false s t = some s') : s'.svc = s.svc := by
+    (h : step .head s t = some s') : s'.svc = s.svc := by
   revert s' h
   obtain ⟨svc, cal, stopping, shutdown, stopped, intr, thr, dos, nDone, nStart, nFinal, ret⟩ := s
   cases t with
   | c tmo =>
-    induction cal using CPc.casesFull <;> simp only [step, stepC] <;> (repeat' split) <;>
+    induction cal using CPc.casesFull <;> simp only [step, stepC, Prog.resets, Prog.readsTwice, Bool.false_eq_true, ↓reduceIte] <;> (repeat' split) <;>
       simp_all [CPc.inStart, wakeReturn, waitReturn] <;> (repeat' split) <;> simp_all [CPc.inStart, wakeReturn, waitReturn]
   | s tmo o u => simp [Tick.isSvc] at ht
   | call k => cases k <;> simp only [step] <;> (repeat' split) <;> simp_all [Call.entry]
@@ -219,7 +219,7 @@ theorem caller_step_svc (s s' : St) (t : Tick) (hc : s.cal.inStart = false) (ht 
 /-- the interleaved form of `T_exits`: whatever the caller thread does in between (except calling `start()`), the service
     thread has ended once it has been given `rank` ticks -/
 theorem T_exits_interleaved (s : St) (l : List Tick) (hT : T s) (hc : s.cal.inStart = false) (hl : noStartCall l)
-    (hn : s.svc.rank ≤ svcCount l) : alive (exec false s l) = false := by
+    (hn : s.svc.rank ≤ svcCount l) : alive (exec .head s l) = false := by
   induction l generalizing s with
   | nil =>
     obtain ⟨svc, cal, stopping, shutdown, stopped, intr, thr, dos, nDone, nStart, nFinal, ret⟩ := s
@@ -231,7 +231,7 @@ theorem T_exits_interleaved (s : St) (l : List Tick) (hT : T s) (hc : s.cal.inSt
     cases hsv : t.isSvc with
     | false =>
       have hcnt : svcCount (t :: ts) = svcCount ts := by simp [svcCount, List.filter, hsv]
-      cases h : step false s t with
+      cases h : step .head s t with
       | none => simpa using ih s hT hc hts (by omega)
       | some s' =>
         obtain ⟨q, c⟩ := T_step s s' t hT hc ht h
@@ -245,7 +245,7 @@ theorem T_exits_interleaved (s : St) (l : List Tick) (hT : T s) (hc : s.cal.inSt
       | s tmo o u =>
         cases ha : alive s with
         | false =>
-          have h0 : step false s (.s tmo o u) = none := dead_stepS s tmo o u ha
+          have h0 : step .head s (.s tmo o u) = none := dead_stepS s tmo o u ha
           rw [h0]
           have : s.svc.rank = 0 := by
             obtain ⟨svc, cal, stopping, shutdown, stopped, intr, thr, dos, nDone, nStart, nFinal, ret⟩ := s
@@ -253,19 +253,19 @@ theorem T_exits_interleaved (s : St) (l : List Tick) (hT : T s) (hc : s.cal.inSt
           exact ih s hT hc hts (by omega)
         | true =>
           obtain ⟨s', h1, h2, h3⟩ := T_progress s tmo o u hT ha
-          have hstep : step false s (.s tmo o u) = some s' := h1
+          have hstep : step .head s (.s tmo o u) = some s' := h1
           rw [hstep]
           obtain ⟨q, c⟩ := T_step s s' _ hT hc rfl hstep
           exact ih s' q c hts (by omega)
 
 /-- a dead (or never started) service thread stays dead, and `do()` is not called, as long as `start()` is not called -/
 theorem dead_step (s s' : St) (t : Tick) (ha : alive s = false) (hc : s.cal.inStart = false) (ht : t.isStartCall = false)
-    (h : step false s t = some s') : alive s' = false ∧ s'.cal.inStart = false ∧ nDo s' = nDo s ∧ s'.nDone = s.nDone := by
+    (h : step .head s t = some s') : alive s' = false ∧ s'.cal.inStart = false ∧ nDo s' = nDo s ∧ s'.nDone = s.nDone := by
   revert s' h
   obtain ⟨svc, cal, stopping, shutdown, stopped, intr, thr, dos, nDone, nStart, nFinal, ret⟩ := s
   cases t with
   | c tmo =>
-    induction cal using CPc.casesFull <;> simp only [step, stepC] <;> (repeat' split) <;>
+    induction cal using CPc.casesFull <;> simp only [step, stepC, Prog.resets, Prog.readsTwice, Bool.false_eq_true, ↓reduceIte] <;> (repeat' split) <;>
       simp_all [alive, nDo, CPc.inStart, wakeReturn, waitReturn] <;> (repeat' split) <;> simp_all [alive, nDo, CPc.inStart, wakeReturn, waitReturn]
   | s tmo o u =>
     cases svc <;> simp_all [step, stepS, alive, SPc.alive]
@@ -273,14 +273,14 @@ theorem dead_step (s s' : St) (t : Tick) (ha : alive s = false) (hc : s.cal.inSt
     cases k <;> simp only [step] <;> (repeat' split) <;> simp_all [Call.entry, Tick.isStartCall, alive, CPc.inStart, nDo]
 
 theorem dead_exec (s : St) (l : List Tick) (ha : alive s = false) (hc : s.cal.inStart = false) (hl : noStartCall l) :
-    alive (exec false s l) = false ∧ nDo (exec false s l) = nDo s ∧ (exec false s l).nDone = s.nDone := by
+    alive (exec .head s l) = false ∧ nDo (exec .head s l) = nDo s ∧ (exec .head s l).nDone = s.nDone := by
   induction l generalizing s with
   | nil => exact ⟨ha, rfl, rfl⟩
   | cons t ts ih =>
     have ht := hl t (List.mem_cons_self ..)
     have hts : noStartCall ts := fun x hx => hl x (List.mem_cons_of_mem _ hx)
     simp only [exec]
-    cases h : step false s t with
+    cases h : step .head s t with
     | none => simpa using ih s ha hc hts
     | some s' =>
       obtain ⟨a, c, n, d⟩ := dead_step s s' t ha hc ht h
@@ -333,56 +333,57 @@ structure Inv (s : St) : Prop where
   retWait : s.cal = .idle → s.ret = .waitTrue → s.svc.alive = false
   doneOnce : s.nDone + (if s.svc.alive then 1 else 0) ≤ s.nStart
   doneFinal : (s.shutdown = true ∨ s.svc = .f141 ∨ 0 < s.nDone) → 0 < s.nFinal
+  noAttrErr : s.ret ≠ .attrErr
 
 theorem Inv_init : Inv init := by
   constructor <;> simp [init, SPc.noEvent, CPc.pastAliveCheck, CPc.stopWritten, CPc.stopWoken, CPc.stopF, SPc.alive]
 
 set_option maxHeartbeats 2000000 in
-theorem Inv_stepS (s s' : St) (tmo : Bool) (o : Outcome) (u : Bool) (hI : Inv s) (h : stepS false s tmo o u = some s') : Inv s' := by
+theorem Inv_stepS (s s' : St) (tmo : Bool) (o : Outcome) (u : Bool) (hI : Inv s) (h : stepS .head s tmo o u = some s') : Inv s' := by
   revert s' h
   obtain ⟨svc, cal, stopping, shutdown, stopped, intr, thr, dos, nDone, nStart, nFinal, ret⟩ := s
-  obtain ⟨i1, i2, i3, i4, i5, i6, i7, i8, i9, i10, i11⟩ := hI
+  obtain ⟨i1, i2, i3, i4, i5, i6, i7, i8, i9, i10, i11, i12⟩ := hI
   have hw := CPc.stopWoken_written cal
-  cases svc <;> simp only [stepS] <;> (repeat' split) <;> intro s' h <;>
+  cases svc <;> simp only [stepS, Prog.resets, Prog.readsTwice, Bool.false_eq_true, ↓reduceIte] <;> (repeat' split) <;> intro s' h <;>
     (first | (simp only [Option.some.injEq] at h; subst h) | (exfalso; simp at h)) <;> constructor <;>
     simp_all [Q, alive, SPc.alive, SPc.noEvent, SPc.sleepy, SPc.exiting] <;> (try omega)
 
 set_option maxHeartbeats 4000000 in
-theorem Inv_stepC (s s' : St) (tmo : Bool) (hI : Inv s) (h : stepC false s tmo = some s') : Inv s' := by
+theorem Inv_stepC (s s' : St) (tmo : Bool) (hI : Inv s) (h : stepC .head s tmo = some s') : Inv s' := by
   revert s' h
   obtain ⟨svc, cal, stopping, shutdown, stopped, intr, thr, dos, nDone, nStart, nFinal, ret⟩ := s
-  obtain ⟨i1, i2, i3, i4, i5, i6, i7, i8, i9, i10, i11⟩ := hI
-  induction cal using CPc.casesFull <;> simp only [stepC] <;> (repeat' split) <;> intro s' h <;>
+  obtain ⟨i1, i2, i3, i4, i5, i6, i7, i8, i9, i10, i11, i12⟩ := hI
+  induction cal using CPc.casesFull <;> simp only [stepC, Prog.resets, Prog.readsTwice, Bool.false_eq_true, ↓reduceIte] <;> (repeat' split) <;> intro s' h <;>
     (first | (simp only [Option.some.injEq] at h; subst h) | (exfalso; simp at h)) <;> constructor <;>
     simp_all [Q, alive, SPc.alive, SPc.noEvent, CPc.pastAliveCheck, CPc.stopWritten, CPc.stopWoken, CPc.stopF, SPc.sleepy,
       SPc.exiting, wakeReturn, waitReturn] <;>
     (cases svc <;> simp_all [SPc.alive, SPc.noEvent, SPc.sleepy, SPc.exiting]) <;> (try omega)
 
-theorem Inv_call (s s' : St) (k : Call) (hI : Inv s) (h : step false s (.call k) = some s') : Inv s' := by
+theorem Inv_call (s s' : St) (k : Call) (hI : Inv s) (h : step .head s (.call k) = some s') : Inv s' := by
   revert s' h
   obtain ⟨svc, cal, stopping, shutdown, stopped, intr, thr, dos, nDone, nStart, nFinal, ret⟩ := s
-  obtain ⟨i1, i2, i3, i4, i5, i6, i7, i8, i9, i10, i11⟩ := hI
+  obtain ⟨i1, i2, i3, i4, i5, i6, i7, i8, i9, i10, i11, i12⟩ := hI
   cases k <;> simp only [step] <;> (repeat' split) <;> intro s' h <;>
     (first | (simp only [Option.some.injEq] at h; subst h) | (exfalso; simp at h)) <;> constructor <;>
     simp_all [Call.entry, CPc.pastAliveCheck, CPc.stopWritten, CPc.stopWoken, CPc.stopF] <;> (try omega)
 
-theorem Inv_step (s s' : St) (t : Tick) (hI : Inv s) (h : step false s t = some s') : Inv s' := by
+theorem Inv_step (s s' : St) (t : Tick) (hI : Inv s) (h : step .head s t = some s') : Inv s' := by
   cases t with
   | c tmo => exact Inv_stepC s s' tmo hI h
   | s tmo o u => exact Inv_stepS s s' tmo o u hI h
   | call k => exact Inv_call s s' k hI h
 
-theorem Inv_exec (s : St) (l : List Tick) (hI : Inv s) : Inv (exec false s l) := by
+theorem Inv_exec (s : St) (l : List Tick) (hI : Inv s) : Inv (exec .head s l) := by
   induction l generalizing s with
   | nil => exact hI
   | cons t ts ih =>
     simp only [exec]
-    cases h : step false s t with
+    cases h : step .head s t with
     | none => simpa using ih s hI
     | some s' => exact ih s' (Inv_step s s' t hI h)
 
 /-- every state reachable from the initial one, by any schedule, satisfies the invariant -/
-theorem Inv_reach (l : List Tick) : Inv (exec false init l) := Inv_exec init l Inv_init
+theorem Inv_reach (l : List Tick) : Inv (exec .head init l) := Inv_exec init l Inv_init
 
 /-! ## (a) a stop request is never lost -/
 
@@ -392,17 +393,17 @@ theorem Inv_reach (l : List Tick) : Inv (exec false init l) := Inv_exec init l I
     already read `__stopping` as False at the loop head (it is at `r100b`/`r105`) when the flag was written.
     (The caller is sequential, so "no `start()` in `post`" is exactly "the write came after the last `start()` returned";
     a `start()` issued *after* the stop re-arms the service on purpose, line 184.) -/
-theorem stop_is_never_lost (pre post : List Tick) (hw : (exec false init pre).cal.stopWritten = true)
+theorem stop_is_never_lost (pre post : List Tick) (hw : (exec .head init pre).cal.stopWritten = true)
     (hp : noStartCall post) :
-    nDo (exec false init (pre ++ post)) ≤ nDo (exec false init pre) + (exec false init pre).svc.mayDo ∧
-      nDo (exec false init (pre ++ post)) ≤ nDo (exec false init pre) + 1 := by
+    nDo (exec .head init (pre ++ post)) ≤ nDo (exec .head init pre) + (exec .head init pre).svc.mayDo ∧
+      nDo (exec .head init (pre ++ post)) ≤ nDo (exec .head init pre) + 1 := by
   have hI := Inv_reach pre
   have hQ := hI.stopQ hw
   have hc := CPc.stopWritten_notInStart _ hw
   obtain ⟨_, _, hn⟩ := Q_exec _ post hQ hc hp
   rw [exec_append]
-  have hm : (exec false init pre).svc.mayDo ≤ 1 := by
-    cases (exec false init pre).svc <;> simp [SPc.mayDo]
+  have hm : (exec .head init pre).svc.mayDo ≤ 1 := by
+    cases (exec .head init pre).svc <;> simp [SPc.mayDo]
   constructor <;> omega
 
 /-- the bound is exact: one further call of `do()` does happen when the stop arrives between the loop-head test and `do()` -/
@@ -411,48 +412,48 @@ theorem stop_one_more_do_possible :
                 .s false .success false, .s false .success false, .s false .success false,     -- r95 r96 r100: reads __stopping = False
                 .call (.stop false false), .c false, .c false]
     let post := [Tick.s false .success false, .s false .success false]
-    (exec false init pre).cal.stopWritten = true ∧ nDo (exec false init (pre ++ post)) = nDo (exec false init pre) + 1 := by
+    (exec .head init pre).cal.stopWritten = true ∧ nDo (exec .head init (pre ++ post)) = nDo (exec .head init pre) + 1 := by
   decide
 
 /-- **Stop is never lost — termination.**  Once the caller has also returned from the `wake()` of line 204 (it is at line 205
     or beyond: about to join, joining, or — after any continuation `mid` without `start()` — long gone), the service thread
     running alone ends within 11 of its own statements, *whether or not any sleep times out* and whatever `do()` and `until()`
     return.  In particular the join of a waiting `stop()` is eventually enabled. -/
-theorem loop_exits_after_stop (pre mid svcTicks : List Tick) (hw : (exec false init pre).cal.stopWoken = true)
+theorem loop_exits_after_stop (pre mid svcTicks : List Tick) (hw : (exec .head init pre).cal.stopWoken = true)
     (hm : noStartCall mid) (hs : svcOnly svcTicks) (hlen : 11 ≤ svcTicks.length) :
-    alive (exec false init (pre ++ mid ++ svcTicks)) = false := by
+    alive (exec .head init (pre ++ mid ++ svcTicks)) = false := by
   have hI := Inv_reach pre
   have hwr := CPc.stopWoken_written _ hw
-  have hT : T (exec false init pre) := ⟨hI.stopQ hwr, hI.stopT hw, hI.noVar⟩
+  have hT : T (exec .head init pre) := ⟨hI.stopQ hwr, hI.stopT hw, hI.noVar⟩
   have hc := CPc.stopWritten_notInStart _ hwr
   obtain ⟨hT2, hc2⟩ := T_exec _ mid hT hc hm
   rw [exec_append, exec_append]
   refine T_exits _ svcTicks hT2 hc2 hs ?_
-  have : (exec false (exec false init pre) mid).svc.rank ≤ 11 := by
-    cases (exec false (exec false init pre) mid).svc <;> simp [SPc.rank]
+  have : (exec .head (exec .head init pre) mid).svc.rank ≤ 11 := by
+    cases (exec .head (exec .head init pre) mid).svc <;> simp [SPc.rank]
   omega
 
 /-- the same, with the caller thread interleaved arbitrarily (no `start()`): after 11 ticks of the service thread it has ended -/
-theorem loop_exits_after_stop_interleaved (pre post : List Tick) (hw : (exec false init pre).cal.stopWoken = true)
-    (hp : noStartCall post) (hlen : 11 ≤ svcCount post) : alive (exec false init (pre ++ post)) = false := by
+theorem loop_exits_after_stop_interleaved (pre post : List Tick) (hw : (exec .head init pre).cal.stopWoken = true)
+    (hp : noStartCall post) (hlen : 11 ≤ svcCount post) : alive (exec .head init (pre ++ post)) = false := by
   have hI := Inv_reach pre
   have hwr := CPc.stopWoken_written _ hw
-  have hT : T (exec false init pre) := ⟨hI.stopQ hwr, hI.stopT hw, hI.noVar⟩
+  have hT : T (exec .head init pre) := ⟨hI.stopQ hwr, hI.stopT hw, hI.noVar⟩
   have hc := CPc.stopWritten_notInStart _ hwr
   rw [exec_append]
   refine T_exits_interleaved _ post hT hc hp ?_
-  have : (exec false init pre).svc.rank ≤ 11 := by
-    cases (exec false init pre).svc <;> simp [SPc.rank]
+  have : (exec .head init pre).svc.rank ≤ 11 := by
+    cases (exec .head init pre).svc <;> simp [SPc.rank]
   omega
 
 /-- … and until then it is never blocked: every tick of a live service thread is enabled, sleep timeout or not -/
 theorem never_sleeps_through_stop (pre post : List Tick) (tmo : Bool) (o : Outcome) (u : Bool)
-    (hw : (exec false init pre).cal.stopWoken = true) (hp : noStartCall post)
-    (ha : alive (exec false init (pre ++ post)) = true) :
-    (stepS false (exec false init (pre ++ post)) tmo o u).isSome = true := by
+    (hw : (exec .head init pre).cal.stopWoken = true) (hp : noStartCall post)
+    (ha : alive (exec .head init (pre ++ post)) = true) :
+    (stepS .head (exec .head init (pre ++ post)) tmo o u).isSome = true := by
   have hI := Inv_reach pre
   have hwr := CPc.stopWoken_written _ hw
-  have hT : T (exec false init pre) := ⟨hI.stopQ hwr, hI.stopT hw, hI.noVar⟩
+  have hT : T (exec .head init pre) := ⟨hI.stopQ hwr, hI.stopT hw, hI.noVar⟩
   have hc := CPc.stopWritten_notInStart _ hwr
   obtain ⟨hT2, _⟩ := T_exec _ post hT hc hp
   rw [exec_append] at ha ⊢
@@ -464,18 +465,18 @@ theorem never_sleeps_through_stop (pre post : List Tick) (tmo : Bool) (o : Outco
 /-- **No `do()` after `stop(wait=True)` / `wait()` has returned.**  If after `pre` the caller is idle and its last call was a
     `stop(forever, wait=True)` that returned normally (or a `wait()` that returned True), then the service thread is not
     alive, and in every continuation without a new `start()` no call of `do()` (and no `done()`) happens. -/
-theorem no_do_after_waiting_stop_returns (pre post : List Tick) (hidle : (exec false init pre).cal = .idle)
-    (hret : (∃ f, (exec false init pre).ret = .stopRet f true) ∨ (exec false init pre).ret = .waitTrue)
+theorem no_do_after_waiting_stop_returns (pre post : List Tick) (hidle : (exec .head init pre).cal = .idle)
+    (hret : (∃ f, (exec .head init pre).ret = .stopRet f true) ∨ (exec .head init pre).ret = .waitTrue)
     (hp : noStartCall post) :
-    alive (exec false init pre) = false ∧ alive (exec false init (pre ++ post)) = false ∧
-      nDo (exec false init (pre ++ post)) = nDo (exec false init pre) ∧
-      (exec false init (pre ++ post)).nDone = (exec false init pre).nDone := by
+    alive (exec .head init pre) = false ∧ alive (exec .head init (pre ++ post)) = false ∧
+      nDo (exec .head init (pre ++ post)) = nDo (exec .head init pre) ∧
+      (exec .head init (pre ++ post)).nDone = (exec .head init pre).nDone := by
   have hI := Inv_reach pre
-  have ha : alive (exec false init pre) = false := by
+  have ha : alive (exec .head init pre) = false := by
     rcases hret with ⟨f, hr⟩ | hr
     · exact (hI.retStop hidle f true hr).2 rfl
     · exact hI.retWait hidle hr
-  have hc : (exec false init pre).cal.inStart = false := by rw [hidle]; rfl
+  have hc : (exec .head init pre).cal.inStart = false := by rw [hidle]; rfl
   obtain ⟨h1, h2, h3⟩ := dead_exec _ post ha hc hp
   rw [exec_append]
   exact ⟨ha, h1, h2, h3⟩
@@ -485,12 +486,12 @@ theorem no_do_after_waiting_stop_returns (pre post : List Tick) (hidle : (exec f
 /-- **Cleanup at most once.**  For every schedule: the number of calls of `done()` never exceeds the number of service threads
     started, and a thread that is still alive has not called it yet. -/
 theorem cleanup_at_most_once_per_start (l : List Tick) :
-    (exec false init l).nDone + (if alive (exec false init l) then 1 else 0) ≤ (exec false init l).nStart :=
+    (exec .head init l).nDone + (if alive (exec .head init l) then 1 else 0) ≤ (exec .head init l).nStart :=
   (Inv_reach l).doneOnce
 
 /-- **Cleanup only for a final stop.**  For every schedule: `done()` has been called only if some `stop(forever=True)` has executed
     its line 202 before (a non-final stop never triggers cleanup, and the service stays restartable). -/
-theorem cleanup_only_after_final_stop (l : List Tick) (h : 0 < (exec false init l).nDone) : 0 < (exec false init l).nFinal :=
+theorem cleanup_only_after_final_stop (l : List Tick) (h : 0 < (exec .head init l).nDone) : 0 < (exec .head init l).nFinal :=
   (Inv_reach l).doneFinal (Or.inr (Or.inr h))
 
 /-- a final stop request is pending against base count `base`: the loop thread is alive and has not cleaned up yet, or it has
@@ -503,33 +504,33 @@ def Tick.isCall : Tick → Bool
   | _ => false
 
 theorem FinalDue_step (base : Nat) (s s' : St) (t : Tick) (hF : FinalDue base s)
-    (hc : s.cal.stopF = some true ∨ s.cal = .idle) (ht : t.isCall = false) (h : step false s t = some s') :
+    (hc : s.cal.stopF = some true ∨ s.cal = .idle) (ht : t.isCall = false) (h : step .head s t = some s') :
     FinalDue base s' ∧ (s'.cal.stopF = some true ∨ s'.cal = .idle) := by
   revert s' h
   obtain ⟨svc, cal, stopping, shutdown, stopped, intr, thr, dos, nDone, nStart, nFinal, ret⟩ := s
   cases t with
   | c tmo =>
-    induction cal using CPc.casesFull <;> simp only [step, stepC] <;> (repeat' split) <;>
+    induction cal using CPc.casesFull <;> simp only [step, stepC, Prog.resets, Prog.readsTwice, Bool.false_eq_true, ↓reduceIte] <;> (repeat' split) <;>
       simp_all [FinalDue, CPc.stopF, wakeReturn, waitReturn]
   | s tmo o u =>
-    cases svc <;> simp only [step, stepS] <;> (repeat' split) <;> simp_all [FinalDue, SPc.alive]
+    cases svc <;> simp only [step, stepS, Prog.resets, Prog.readsTwice, Bool.false_eq_true, ↓reduceIte] <;> (repeat' split) <;> simp_all [FinalDue, SPc.alive]
   | call k => simp [Tick.isCall] at ht
 
 /-- **Cleanup exactly once after a final waiting stop of a live loop.**  If line 202 of a `stop(forever=True, wait)` call is
     executed while the service thread is alive, and the call later returns normally having waited (`wait=True`), then — whatever
     the interleaving — `done()` has been called exactly once in between and the service thread has ended. -/
 theorem cleanup_exactly_once_after_final_waiting_stop (pre post : List Tick) (w : Bool)
-    (h0 : (exec false init pre).cal = .p203 true w) (ha : alive (exec false init pre) = true)
+    (h0 : (exec .head init pre).cal = .p203 true w) (ha : alive (exec .head init pre) = true)
     (hp : ∀ t ∈ post, t.isCall = false)
-    (h1 : (exec false init (pre ++ post)).cal = .idle) (h2 : (exec false init (pre ++ post)).ret = .stopRet true true) :
-    (exec false init (pre ++ post)).nDone = (exec false init pre).nDone + 1 ∧ alive (exec false init (pre ++ post)) = false := by
+    (h1 : (exec .head init (pre ++ post)).cal = .idle) (h2 : (exec .head init (pre ++ post)).ret = .stopRet true true) :
+    (exec .head init (pre ++ post)).nDone = (exec .head init pre).nDone + 1 ∧ alive (exec .head init (pre ++ post)) = false := by
   have hI := Inv_reach pre
   have hI2 := Inv_reach (pre ++ post)
-  have hsd : (exec false init pre).shutdown = true := hI.shutF true (by rw [h0]; rfl)
-  have hF0 : FinalDue (exec false init pre).nDone (exec false init pre) := ⟨hsd, Or.inl ⟨ha, rfl⟩⟩
-  have hc0 : (exec false init pre).cal.stopF = some true ∨ (exec false init pre).cal = .idle := Or.inl (by rw [h0]; rfl)
-  have key : ∀ (l : List Tick) (s : St), FinalDue (exec false init pre).nDone s → (s.cal.stopF = some true ∨ s.cal = .idle) →
-      (∀ t ∈ l, t.isCall = false) → FinalDue (exec false init pre).nDone (exec false s l) := by
+  have hsd : (exec .head init pre).shutdown = true := hI.shutF true (by rw [h0]; rfl)
+  have hF0 : FinalDue (exec .head init pre).nDone (exec .head init pre) := ⟨hsd, Or.inl ⟨ha, rfl⟩⟩
+  have hc0 : (exec .head init pre).cal.stopF = some true ∨ (exec .head init pre).cal = .idle := Or.inl (by rw [h0]; rfl)
+  have key : ∀ (l : List Tick) (s : St), FinalDue (exec .head init pre).nDone s → (s.cal.stopF = some true ∨ s.cal = .idle) →
+      (∀ t ∈ l, t.isCall = false) → FinalDue (exec .head init pre).nDone (exec .head s l) := by
     intro l
     induction l with
     | nil => intro s hF _ _; exact hF
@@ -538,7 +539,7 @@ theorem cleanup_exactly_once_after_final_waiting_stop (pre post : List Tick) (w 
       have ht := hl t (List.mem_cons_self ..)
       have hts : ∀ x ∈ ts, x.isCall = false := fun x hx => hl x (List.mem_cons_of_mem _ hx)
       simp only [exec]
-      cases h : step false s t with
+      cases h : step .head s t with
       | none => simpa using ih s hF hc hts
       | some s' =>
         obtain ⟨f2, c2⟩ := FinalDue_step _ s s' t hF hc ht h
@@ -561,22 +562,22 @@ def startTicks : List Tick := .call .start :: List.replicate 7 (.c false)
     (`join(timeout=1)`, line 181) and then raises RuntimeError("Service already started") — see
     `restart_refused_while_old_loop_alive`.  What holds: -/
 theorem restart_after_nonfinal_stop_partial (pre : List Tick) (o : Outcome)
-    (hidle : (exec false init pre).cal = .idle) (hret : (exec false init pre).ret = .stopRet false true) :
-    let s := exec false init pre
-    let s1 := exec false s startTicks
+    (hidle : (exec .head init pre).cal = .idle) (hret : (exec .head init pre).ret = .stopRet false true) :
+    let s := exec .head init pre
+    let s1 := exec .head s startTicks
     s1.ret = .startOk ∧ s1.cal = .idle ∧ s1.svc = .r95 ∧ s1.stopping = false ∧ s1.shutdown = false ∧
-      nDo (exec false s1 (List.replicate 5 (.s false o false))) = nDo s + 1 := by
+      nDo (exec .head s1 (List.replicate 5 (.s false o false))) = nDo s + 1 := by
   have hI := Inv_reach pre
   obtain ⟨hsd, hal⟩ := hI.retStop hidle false true hret
   have hal := hal rfl
   have hth := hI.thrNone
   have hia := hI.intrAbs
-  generalize exec false init pre = s at *
+  generalize exec .head init pre = s at *
   obtain ⟨svc, cal, stopping, shutdown, stopped, intr, thr, dos, nDone, nStart, nFinal, ret⟩ := s
   simp only at hidle hsd hal hth hia
   subst hidle hsd
   cases svc <;> simp [SPc.alive] at hal <;>
-    simp_all [startTicks, List.replicate, exec, step, stepC, stepS, Call.entry, alive, SPc.alive, nDo, SPc.noEvent]
+    simp_all [startTicks, List.replicate, exec, step, stepC, stepS, Call.entry, alive, SPc.alive, nDo, SPc.noEvent, Prog.resets, Prog.readsTwice]
 
 /-- kernel-checked counterexample to the full statement: start; the loop is inside its first sleep; `stop(False, wait=False)`
     returns; `start()` finds the old thread alive, its one-second join gives up, RuntimeError("Service already started") -/
@@ -586,27 +587,27 @@ theorem restart_refused_while_old_loop_alive :
                   .s false .success false, .s false .success false,
                   .call (.stop false false), .c false, .c false, .c false, .c false, .c false,
                   .call .start, .c false, .c false, .c false, .c true, .c false]
-    (exec false init (sched.take 20)).ret = .stopRet false false ∧ (exec false init (sched.take 20)).cal = .idle ∧
-      (exec false init sched).ret = .startAlready := by
+    (exec .head init (sched.take 20)).ret = .stopRet false false ∧ (exec .head init (sched.take 20)).cal = .idle ∧
+      (exec .head init sched).ret = .startAlready := by
   decide
 
 /-- **A finally stopped service refuses to start.**  Whenever `__shutdown` is up and the caller is idle, a `start()` call raises
     at line 178-179: no flag is touched, no thread is created. -/
 theorem start_refused_when_shutdown (s : St) (tmo : Bool) (hidle : s.cal = .idle) (hs : s.shutdown = true) :
-    exec false s [.call .start, .c tmo] = { s with ret := .startRefused } := by
+    exec .head s [.call .start, .c tmo] = { s with ret := .startRefused } := by
   obtain ⟨svc, cal, stopping, shutdown, stopped, intr, thr, dos, nDone, nStart, nFinal, ret⟩ := s
   simp_all [exec, step, stepC, Call.entry]
 
 theorem no_restart_after_final_stop (pre : List Tick) (w tmo : Bool)
-    (hidle : (exec false init pre).cal = .idle) (hret : (exec false init pre).ret = .stopRet true w) :
-    exec false init (pre ++ [.call .start, .c tmo]) = { exec false init pre with ret := .startRefused } := by
+    (hidle : (exec .head init pre).cal = .idle) (hret : (exec .head init pre).ret = .stopRet true w) :
+    exec .head init (pre ++ [.call .start, .c tmo]) = { exec .head init pre with ret := .startRefused } := by
   have hI := Inv_reach pre
   rw [exec_append]
   exact start_refused_when_shutdown _ tmo hidle (hI.retStop hidle true w hret).1
 
 /-- `start()` creates the service thread (line 187) only when no service thread is alive: one slot for the service thread's
     program counter is enough, for every schedule -/
-theorem single_service_thread (l : List Tick) (h : (exec false init l).cal = .a187) : alive (exec false init l) = false :=
+theorem single_service_thread (l : List Tick) (h : (exec .head init l).cal = .a187) : alive (exec .head init l) = false :=
   (Inv_reach l).startDead (by rw [h]; rfl)
 
 /-! ## (d) why the reset of `__stopping` must sit in `start()` -/
@@ -619,9 +620,9 @@ theorem variant_loses_stop :
     let pre := [Tick.call .start, .c false, .c false, .c false, .c false, .c false, .c false,
                 .call (.stop false false), .c false, .c false]
     let post := [Tick.c false, .c false] ++ List.replicate 15 (Tick.s true .success false)
-    (exec true init pre).cal.stopWritten = true ∧ noStartCall post ∧
-      (exec true init (pre ++ post)).ret = .stopRet false false ∧
-      nDo (exec true init (pre ++ post)) = nDo (exec true init pre) + 2 ∧ alive (exec true init (pre ++ post)) = true := by
+    (exec .resetInRun init pre).cal.stopWritten = true ∧ noStartCall post ∧
+      (exec .resetInRun init (pre ++ post)).ret = .stopRet false false ∧
+      nDo (exec .resetInRun init (pre ++ post)) = nDo (exec .resetInRun init pre) + 2 ∧ alive (exec .resetInRun init (pre ++ post)) = true := by
   refine ⟨by decide, ?_, by decide, by decide, by decide⟩
   intro t ht
   simp only [List.cons_append, List.nil_append, List.mem_cons, List.mem_replicate] at ht
@@ -632,8 +633,8 @@ theorem variant_loses_stop :
 theorem variant_never_exits :
     let pre := [Tick.call .start, .c false, .c false, .c false, .c false, .c false, .c false,
                 .call (.stop false false), .c false, .c false, .c false, .c false]
-    alive (exec true init (pre ++ List.replicate 200 (Tick.s true .success false))) = true ∧
-      nDo (exec true init (pre ++ List.replicate 200 (Tick.s true .success false))) = 25 := by
+    alive (exec .resetInRun init (pre ++ List.replicate 200 (Tick.s true .success false))) = true ∧
+      nDo (exec .resetInRun init (pre ++ List.replicate 200 (Tick.s true .success false))) = 25 := by
   decide +kernel
 
 /-- the same schedule on the program as it is: the request survives, no `do()` at all, the loop ends -/
@@ -641,26 +642,92 @@ theorem head_keeps_stop :
     let pre := [Tick.call .start, .c false, .c false, .c false, .c false, .c false, .c false, .c false,
                 .call (.stop false false), .c false, .c false]
     let post := [Tick.c false, .c false] ++ List.replicate 15 (Tick.s true .success false)
-    nDo (exec false init (pre ++ post)) = 0 ∧ alive (exec false init (pre ++ post)) = false := by
+    nDo (exec .head init (pre ++ post)) = 0 ∧ alive (exec .head init (pre ++ post)) = false := by
   decide
 
-/-! ## a defect of the code as it is: `wake()` can raise AttributeError -/
+/-! ## `wake()` reads `__interrupt` once (fix fa2d0de): no call raises AttributeError; `stop()` always returns normally -/
 
-/-- FULL STATEMENT (false on the code as it is): "no API call raises AttributeError", i.e.
-    `∀ l, (exec false init l).ret ≠ .attrErr`.  `wake()` tests `self.__interrupt is None` (line 167) and dereferences
-    `self.__interrupt` again (line 170); the service thread's `self.__interrupt = None` (line 131) can fall in between.
-    What holds: the second read does not fail if the event is still there. -/
-theorem wake_no_attrerr_partial (s s' : St) (c : Ctx) (tmo : Bool) (hc : s.cal = .k170 c) (hi : s.intr ≠ .absent)
-    (h : stepC false s tmo = some s') :
-    s'.intr = .set ∧ ((c = none ∧ s'.cal = .idle ∧ s'.ret = .wakeRet) ∨ (∃ f w, c = some (f, w) ∧ s'.cal = .p205 f w ∧ s'.ret = s.ret)) := by
+/-- **No API call raises AttributeError**, for every schedule.  (Before fix fa2d0de `wake()` tested `self.__interrupt is None` and
+    then dereferenced `self.__interrupt` again; the service thread's `self.__interrupt = None`, line 131, could fall in between:
+    `wake_twice_raises`.) -/
+theorem no_attribute_error (l : List Tick) : (exec .head init l).ret ≠ .attrErr := (Inv_reach l).noAttrErr
+
+/-- the caller is inside the call `stop(f, w)` (including its nested `wake()` and untimed `wait()`) -/
+def CPc.inStopOf (f w : Bool) : CPc → Bool
+  | .p202 f' w' | .p203 f' w' | .p205 f' w' => f' == f && w' == w
+  | .k167 (some (f', w')) | .k170 (some (f', w')) => f' == f && w' == w
+  | .w233 (some (f', w')) t | .w235j (some (f', w')) t | .w236 (some (f', w')) t => f' == f && w' == w && !t
+  | _ => false
+
+def CPc.isW236 : CPc → Bool
+  | .w236 _ _ => true
+  | _ => false
+
+/-- the call `stop(f, w)` is in progress (and past its join only if the loop thread has ended), or has returned normally -/
+def StopRun (f w : Bool) (s : St) : Prop :=
+  (s.cal.inStopOf f w = true ∧ (s.cal.isW236 = true → alive s = false)) ∨ (s.cal = .idle ∧ s.ret = .stopRet f w)
+
+theorem StopRun_step (f w : Bool) (s s' : St) (t : Tick) (hR : StopRun f w s) (ht : t.isCall = false)
+    (h : step .head s t = some s') : StopRun f w s' := by
+  revert s' h
   obtain ⟨svc, cal, stopping, shutdown, stopped, intr, thr, dos, nDone, nStart, nFinal, ret⟩ := s
-  simp only at hc hi
-  subst hc
-  rcases c with _ | ⟨f, w⟩ <;> simp_all [stepC, wakeReturn] <;> subst h <;> simp <;> (cases f <;> cases w <;> simp)
+  cases t with
+  | c tmo =>
+    induction cal using CPc.casesFull <;> simp only [step, stepC, Prog.resets, Prog.readsTwice, Bool.false_eq_true, ↓reduceIte] <;>
+      (repeat' split) <;> simp_all [StopRun, CPc.inStopOf, CPc.isW236, wakeReturn, waitReturn, alive]
+  | s tmo o u =>
+    cases svc <;> simp only [step, stepS, Prog.resets, Prog.readsTwice, Bool.false_eq_true, ↓reduceIte] <;> (repeat' split) <;>
+      simp_all [StopRun, alive, SPc.alive] <;> (rcases hR with ⟨h1, _⟩ | h1 <;> simp [h1])
+  | call k => simp [Tick.isCall] at ht
 
-/-- kernel-checked counterexample: the loop leaves on its own (`until()` true) while a waiting final `stop()` is between lines
-    167 and 170 of `wake()`: `stop()` raises AttributeError instead of joining (the loop still ends and `done()` still runs) -/
-theorem wake_attrerr_witness :
+/-- **`stop()` never raises, and a waiting `stop()` joins.**  For every schedule: a call `stop(forever, wait)` issued by the idle
+    caller, once it is over (whatever the two threads did in between), has returned normally — no AttributeError, no TimeoutError —
+    and if `wait=True` the service thread has ended.  (That it *is* over eventually: `loop_exits_after_stop` — the loop ends
+    within 11 statements — and `waiting_stop_completes`.) -/
+theorem stop_returns_normally (pre post : List Tick) (f w : Bool) (h0 : (exec .head init pre).cal = .idle)
+    (hp : ∀ t ∈ post, t.isCall = false)
+    (h1 : (exec .head init (pre ++ Tick.call (.stop f w) :: post)).cal = .idle) :
+    (exec .head init (pre ++ Tick.call (.stop f w) :: post)).ret = .stopRet f w ∧
+      (w = true → alive (exec .head init (pre ++ Tick.call (.stop f w) :: post)) = false) := by
+  have hI := Inv_reach (pre ++ Tick.call (.stop f w) :: post)
+  have key : ∀ (l : List Tick) (s : St), StopRun f w s → (∀ t ∈ l, t.isCall = false) → StopRun f w (exec .head s l) := by
+    intro l
+    induction l with
+    | nil => intro s hR _; exact hR
+    | cons t ts ih =>
+      intro s hR hl
+      have ht := hl t (List.mem_cons_self ..)
+      have hts : ∀ x ∈ ts, x.isCall = false := fun x hx => hl x (List.mem_cons_of_mem _ hx)
+      simp only [exec]
+      cases h : step .head s t with
+      | none => simpa using ih s hR hts
+      | some s' => exact ih s' (StopRun_step f w s s' t hR ht h) hts
+  have hs1 : StopRun f w (exec .head (exec .head init pre) [Tick.call (.stop f w)]) := by
+    generalize exec .head init pre = s at h0
+    obtain ⟨svc, cal, stopping, shutdown, stopped, intr, thr, dos, nDone, nStart, nFinal, ret⟩ := s
+    simp only at h0
+    subst h0
+    simp [exec, step, Call.entry, StopRun, CPc.inStopOf, CPc.isW236]
+  have hR := key post _ hs1 hp
+  rw [← exec_append, ← exec_append] at hR
+  simp only [List.append_assoc, List.singleton_append] at hR
+  rcases hR with ⟨hin, _⟩ | ⟨_, hret⟩
+  · rw [h1] at hin; simp [CPc.inStopOf] at hin
+  · exact ⟨hret, fun hw => by subst hw; exact (hI.retStop h1 f true hret).2 rfl⟩
+
+/-- once the loop thread has ended, the join of a waiting `stop()` is enabled and the call returns in two statements -/
+theorem waiting_stop_completes (s : St) (f : Bool) (t1 t2 : Bool) (hc : s.cal = .w235j (some (f, true)) false)
+    (ha : alive s = false) :
+    (exec .head s [.c t1, .c t2]).cal = .idle ∧ (exec .head s [.c t1, .c t2]).ret = .stopRet f true := by
+  obtain ⟨svc, cal, stopping, shutdown, stopped, intr, thr, dos, nDone, nStart, nFinal, ret⟩ := s
+  simp only at hc
+  subst hc
+  simp_all [exec, step, stepC, waitReturn, alive]
+
+/-- **Kernel-checked witness that the pre-fix program raises** (variant `.wakeTwice`): the loop leaves on its own (`until()` true)
+    while a waiting final `stop()` is between the two reads of `wake()`: `stop()` raises AttributeError instead of joining (the loop
+    still ends and `done()` still runs). -/
+theorem wake_twice_raises :
     let sched := [Tick.call .start, .c false, .c false, .c false, .c false, .c false, .c false, .c false,
                   .s false .success true, .s false .success true, .s false .success true, .s false .success true,
                   .s false .success true, .s false .success true, .s false .success true, .s false .success true,
@@ -668,8 +735,22 @@ theorem wake_attrerr_witness :
                   .s false .success false, .s false .success false, .s false .success false,
                   .c false,
                   .s false .success false, .s false .success false]
-    (exec false init sched).ret = .attrErr ∧ (exec false init sched).cal = .idle ∧ (exec false init sched).nDone = 1 ∧
-      alive (exec false init sched) = false := by
+    (exec .wakeTwice init sched).ret = .attrErr ∧ (exec .wakeTwice init sched).cal = .idle ∧
+      (exec .wakeTwice init sched).nDone = 1 ∧ alive (exec .wakeTwice init sched) = false := by
+  decide
+
+/-- the same schedule on the program as it is: `stop()` goes on to its join and returns normally -/
+theorem wake_once_same_schedule :
+    let sched := [Tick.call .start, .c false, .c false, .c false, .c false, .c false, .c false, .c false,
+                  .s false .success true, .s false .success true, .s false .success true, .s false .success true,
+                  .s false .success true, .s false .success true, .s false .success true, .s false .success true,
+                  .call (.stop true true), .c false, .c false, .c false,
+                  .s false .success false, .s false .success false, .s false .success false,
+                  .c false,
+                  .s false .success false, .s false .success false,
+                  .c false, .c false, .c false, .c false]
+    (exec .head init sched).ret = .stopRet true true ∧ (exec .head init sched).cal = .idle ∧
+      (exec .head init sched).nDone = 1 ∧ alive (exec .head init sched) = false := by
   decide
 
 /-- satisfiability of the hypotheses of (a), (b), (c): a schedule that starts the service, stops it (not finally, waiting) and
@@ -679,8 +760,8 @@ example :
                 .call (.stop false true), .c false, .c false, .c false, .c false, .c false,
                 .s false .success false, .s false .success false, .s false .success false, .s false .success false,
                 .s false .success false, .s false .success false, .s false .success false, .c false, .c false]
-    (exec false init (pre.take 11)).cal.stopWritten = true ∧ (exec false init (pre.take 13)).cal.stopWoken = true ∧
-      (exec false init pre).cal = .idle ∧ (exec false init pre).ret = .stopRet false true := by
+    (exec .head init (pre.take 11)).cal.stopWritten = true ∧ (exec .head init (pre.take 13)).cal.stopWoken = true ∧
+      (exec .head init pre).cal = .idle ∧ (exec .head init pre).ret = .stopRet false true := by
   decide
 
 /-! ## the model's program counters are the audited statements -/
